@@ -382,7 +382,9 @@ class CFG(object):
                 # the *last* evaluation before node had this polarity
                 if node in self.reach(nb, avoid=b):
                     continue
-                mid = (self.reach(b, avoid=()) & self.coreach([node])) - set(b) - {node}
+                # statements between the *last* evaluation of the test and node
+                after_b = [m for x in b for m in self.succ[x]]
+                mid = (self.reach(after_b, avoid=b) & self.coreach([node], avoid=b)) - {node}
                 if self._kills(nd.test, mid):
                     continue
                 out.append((nd.test, pol))
